@@ -40,6 +40,14 @@ Example lone_subset_layers :
    arts (fst (run_v (h ++ [RemoveGroup 0]) (init_v true) []))) = ([LSub 0 0 0; LSub 1 1 0], [], []).
 Proof. vm_compute. reflexivity. Qed.
 
+(* a dataset swap inside one delay block on state.layers: inside the block the artist of dataset 0 is still there, at the
+   block exit it is pruned *)
+Example block_swap :
+  let h := [Plain (Append 0); Plain (Append 1); Plain (AddData 0); LBegin; Plain (RemoveData 0); Plain (AddData 1)] in
+  (arts (fst (fst (run_d h (init_v true, None) []))), sls (fst (fst (run_d h (init_v true, None) []))),
+   arts (fst (fst (run_d (h ++ [LEnd]) (init_v true, None) [])))) = ([LData 0; LData 1], [LData 1], [LData 1]).
+Proof. vm_compute. reflexivity. Qed.
+
 (* ---- part 2: the selected attribute is removed inside a hub delay block ---- *)
 Definition ds1 : list dinfo := [mkD 0 [(10, 0); (11, 2); (12, 0)] [] [13] []; mkD 1 [(20, 0)] [] [21] []].
 Definition fl1 : flags := mkF true true true false false true false.
